@@ -38,6 +38,7 @@ type obs struct {
 	done                        bool
 	note                        string
 	seen                        []seenObs
+	lateAppended                []error
 	sibClosing                  bool
 	parentAsked                 []string
 	parentClosed                bool
@@ -78,6 +79,22 @@ func build(sp Spec, o *obs) func() {
 		case "scope":
 			full = scope.New(scope.Params{})
 			cs = full
+		case "scope-rollback-listeners":
+			// listeners of the rollback triple and of after-close fail: what they report is recorded while
+			// Close is already past its wait - and is part of what Close answers
+			full = scope.New(scope.Params{})
+			cs = full
+			for _, ev := range []struct {
+				id   interface{}
+				name string
+			}{{app.BeforeRollbackEvent, "before-rollback"}, {app.RollbackEvent, "rollback"}, {app.AfterRollbackEvent, "after-rollback"}, {app.AfterCloseEvent, "after-close"}} {
+				ev := ev
+				full.On(ev.id, func(interface{}) error {
+					e := fmt.Errorf("listener-failed-at-%s", ev.name)
+					o.lateAppended = append(o.lateAppended, e)
+					return e
+				})
+			}
 		case "child":
 			parent = scope.New(scope.Params{})
 			full = scope.NewChild(parent, scope.ChildParams{})
@@ -406,6 +423,14 @@ func judge(sp Spec, o *obs) func(x *explore.Exec) *explore.Verdict {
 					Detail: fmt.Sprintf("the parent (same context) holds %d errors, %d were recorded", o.parentErrs, want)}
 			}
 		}
+		if o.closed {
+			for _, e := range o.lateAppended {
+				if !strings.Contains(o.closeErrText, e.Error()) {
+					return &explore.Verdict{Kind: "error-not-reported-by-accessor", Clause: "every appended error is retained and reported by the scope's error accessors and by waiting on or closing it",
+						Detail: fmt.Sprintf("Close() = %q does not mention %q, which a listener reported while the scope was closing", short(o.closeErrText), e.Error())}
+				}
+			}
+		}
 		for _, e := range o.appended {
 			for acc, txt := range texts {
 				if !strings.Contains(txt, e.Error()) {
@@ -529,6 +554,11 @@ func programs(thorough bool) []Spec {
 		ps = append(ps, Spec{"child-closing", [][]string{{"cclose/" + ev}, {"pwait"}}, b2}, Spec{"child-closing", [][]string{{"cclose/" + ev}, {"pclose"}}, b2},
 			Spec{"child-closing", [][]string{{"cclose/" + ev}, {"pwait"}, {"pclose"}}, b3})
 	}
+	// failing rollback / after-close listeners on a scope that has failed
+	ps = append(ps,
+		Spec{"scope-rollback-listeners", [][]string{{"err"}}, 0},
+		Spec{"scope-rollback-listeners", [][]string{{"kill"}}, 0},
+		Spec{"scope-rollback-listeners", [][]string{{"err"}, {"err"}}, b2})
 	// the parent context of an isolated scope ends while the isolated scope receives errors
 	for _, end := range []string{"ctxkill", "ctxstop", "ctxerr"} {
 		ps = append(ps, Spec{"isolated-parent-ends", [][]string{{end}, {"err"}}, b2},
